@@ -15,24 +15,24 @@
    HighBits stability, canonical signature encoding), and transported to the model of the crate through
    the refinement theorems of C02/C03/C04 (Proofs/Completeness.v).
    Signing returning OutOfFuel (loop or squeeze budget of the model exhausted) is the only other outcome;
-   the budget hypothesis fuel * l < 65536 is the u16 kappa of the crate (see C03). *)
+   the budget hypothesis (fuel + 1) * l <= 65535 is the u16 kappa of the crate (see C03). *)
 Require Import List ZArith. Import ListNotations.
 Require Import F204.Base.Util F204.Base.Mach F204.Gen.Params F204.Gen.Oids F204.Hash.HashIface F204.Impl.Encodings F204.Impl.MlDsa F204.Impl.Api
   F204.Spec.SpecConv F204.Spec.SpecRound F204.Proofs.KernelLemmas F204.Proofs.DeriveRefine F204.Proofs.Completeness.
 Require Import F204.Proofs.RealHashes.
 Open Scope Z_scope.
 
-Theorem C01_sign_then_verify : forall H, HashLaws H -> forall P, In P all_params -> forall fuel, Z.of_nat fuel * lz P < 65536 ->
+Theorem C01_sign_then_verify : forall H, HashLaws H -> forall P, In P all_params -> forall fuel, (Z.of_nat fuel + 1) * lz P <= 65535 ->
   forall xi pk sk rnd g M ctx sig g', keygen_from_seed H P xi = Ok (pk, sk) -> zlen rnd = 32 ->
   try_sign_with_rng H fuel P sk (Fill rnd :: g) M ctx = (Ok sig, g') -> verify H P pk M sig ctx = Ok true.
 Proof. exact sign_then_verify. Qed.
 
-Theorem C01_hash_sign_then_verify : forall H, HashLaws H -> forall P, In P all_params -> forall fuel, Z.of_nat fuel * lz P < 65536 ->
+Theorem C01_hash_sign_then_verify : forall H, HashLaws H -> forall P, In P all_params -> forall fuel, (Z.of_nat fuel + 1) * lz P <= 65535 ->
   forall xi pk sk rnd g M ctx ph sig g', keygen_from_seed H P xi = Ok (pk, sk) -> zlen rnd = 32 ->
   try_hash_sign_with_rng H fuel P sk (Fill rnd :: g) M ctx ph = (Ok sig, g') -> hash_verify H P pk M sig ctx ph = Ok true.
 Proof. exact hash_sign_then_verify. Qed.
 
-Theorem C01_internal_sign_then_verify : forall H, HashLaws H -> forall P, In P all_params -> forall fuel, Z.of_nat fuel * lz P < 65536 ->
+Theorem C01_internal_sign_then_verify : forall H, HashLaws H -> forall P, In P all_params -> forall fuel, (Z.of_nat fuel + 1) * lz P <= 65535 ->
   forall xi pk sk rnd M ctx sig, keygen_from_seed H P xi = Ok (pk, sk) -> zlen ctx <= 255 ->
   internal_sign H fuel P sk M ctx rnd = Ok sig -> internal_verify H P pk M sig ctx = Ok true.
 Proof. exact internal_sign_then_verify. Qed.
